@@ -1,6 +1,5 @@
 /*
- * Contract of qbe.c:funcstore() on bit-field lvalues + harness, shared by QBE.bitfield.store (every clause but one)
- * and QBE.bitfield.store.top (the one clause that FAILS on the pinned tree: genuine defect, see that unit).
+ * Contract of qbe.c:funcstore() on bit-field lvalues + harness (unit QBE.bitfield.store).
  */
 /* ghosts */
 u64 g_old;               /* the 8 bytes at the lvalue's address before the store (unit = its low g_sz bytes) */
@@ -41,26 +40,18 @@ struct value *g_vp, *g_ap;
 	X(rec.mem == spec_bf_insert(g_old, g_v, WIDTH, g_before)) \
 	/* 6.5.16p3: the value of the assignment expression is the value of the field after the assignment */ \
 	X(RET != 0 && RET->kind == VALUE_TEMP) \
-	/* (a field that ends at the top of a char/short unit is QBE.bitfield.store.top's clause: genuine defect there) */ \
 	X(IMP(!TOPFIELD, spec_wrap(RET->u.i, g_sz, g_sg) == spec_bf_conv(g_v, WIDTH, g_sg))) \
+	/* same fact for a field that ends at the top of a char/short unit (after == 0, size < 4): its own clause because \
+	   it FAILED on the pinned snapshot 135bd81 (funcbits emitted no shl, so bits of v above the field survived: \
+	   `struct {short a:8, b:8;} s; (s.b = 0x180)` was 384 instead of -128); repaired in /repo by 3ee136c */ \
+	X(IMP(TOPFIELD, spec_wrap(RET->u.i, g_sz, g_sg) == spec_bf_conv(g_v, WIDTH, g_sg))) \
 	/* ... which is what a later read of the unit yields */ \
 	X(spec_bf_extract(rec.mem, WIDTH, g_before, g_sg) == spec_bf_conv(g_v, WIDTH, g_sg)) \
 	/* operands only read */ \
 	X(g_vp->u.i == g_v && g_ap->u.i == g_addr && rec.mem_addr == g_addr) \
 	CANARY(X, !(g_sz == 2 && g_before == 3 && g_after == 8 && g_sg))
 
-/* QBE.bitfield.store.top: the value of the assignment expression when the field ends at the top of a char/short
- * storage unit (after == 0, size < 4) */
-#define POST_TOP(X) \
-	X(RET != 0 && RET->kind == VALUE_TEMP) \
-	X(IMP(TOPFIELD, spec_wrap(RET->u.i, g_sz, g_sg) == spec_bf_conv(g_v, WIDTH, g_sg))) \
-	CANARY(X, !(g_sz == 2 && g_before == 3 && g_after == 0 && g_sg))
-
-#ifdef BF_TOP_ONLY
-#define POST_SEL POST_TOP
-#else
 #define POST_SEL POST_STORE
-#endif
 
 static struct value *funcstore_contract(struct func *f, struct type *t, enum typequal tq, struct lvalue lval, struct value *v)
 REQUIRES(PRE)
